@@ -32,7 +32,36 @@ TEMPLATES = [
     ("function g() { return x; } function f(x) { return g(); } x = 7; return f(1);", 7, None, "ok"),
     ("function g() { n = n + 1; } function f() { foreach n in [10] { g(); t(n); } } n = 1; f(); return n;", 2, None, "ok"),
     ("function f() { x = 1; 24; } n = 0; foreach i in 1..3 { f(); n = n + 1; } return n;", 3, None, "ok"),
+    ("function f(i, l) { foreach i, v in l { } return i; } return f(42, [\"a\", \"b\", \"c\"]);", 42, None, "ok"),
+    ("function f(l) { local n; n = \"count\"; foreach n, v in l { } return n; } return f([\"a\", \"b\"]);", "count", None, "ok"),
+    ("function f(v, l) { foreach i, v in l { } return v; } return f(42, [\"a\", \"b\", \"c\"]);", 42, None, "ok"),
+    ("t = 0; foreach i, row in [[10, 20, 30], [40, 50, 60]] { foreach i, v in row { } t = t + i; } return t;", 1, None, "ok"),
+    ("t = 0; foreach row in [[1, 2], [3]] { foreach row in row { t = t + row; } t = t + len(row); } return t;", 9, None, "ok"),
 ]
+
+def shadow_program(rng):
+    """A loop variable named like something already local to the running function (a parameter, a `local`,
+    the variable of an enclosing loop) or like a global, read again after the loop."""
+    names = ["a", "b", "x", "n", "p"]
+    X = rng.choice(names)
+    Y = rng.choice(names)
+    coll = rng.choice(['[7, 8, 9]', '"xyz"', '{"k": 1, "j": 2}', '2..4', '[]', 'l'])
+    two = rng.random() < 0.7
+    head = "foreach %s, %s in %s" % (X, Y, coll) if two else "foreach %s in %s" % (X, coll)
+    body = rng.choice(["", "q = %s;" % X, "%s = 100;" % X, "%s++;" % Y, "t(%s);" % X, "if (%s == 8) { break; }" % Y if False else "r = %s;" % Y])
+    loop = "%s { %s }" % (head, body)
+    if rng.random() < 0.3:
+        loop = "foreach %s, %s in [[1, 2], [3]] { %s w = %s; }" % (rng.choice([X, Y, "z"]), rng.choice(["l", "m"]), loop, X)
+    kind = rng.randint(0, 3)
+    if kind == 0:      # parameter
+        return "function f(%s, l) { %s return [%s, %s]; } %s = \"g\"; r = f(41, [5, 6]); return [r, %s];" % (X, loop, X, Y, X, X)
+    if kind == 1:      # local
+        return "function f(l) { local %s; %s = \"loc\"; %s return [%s, %s]; } %s = \"g\"; r = f([5, 6]); return [r, %s, %s];" % (X, X, loop, X, Y, Y, X, Y)
+    if kind == 2:      # global at top level
+        return "l = [5, 6]; %s = \"g\"; %s = \"h\"; %s return [%s, %s];" % (X, Y, loop, X, Y)
+    # the callee's loop variable against the caller's local of the same name
+    return ("function g(l) { %s return 1; } function f(l) { local %s; %s = \"mine\"; g(l); return %s; } return [f([5, 6]), %s];" % (loop, X, X, X, X))
+
 
 class C06(Prop):
     id = "C06"
@@ -42,7 +71,9 @@ class C06(Prop):
             "foreach/while/switch, forward calls, arity errors, unknown functions, built-in vs user function) with expectations written in "
             "the generator; (b) random function-heavy programs with all names drawn from {a,b,x,n,p} so that parameters, locals, loop "
             "variables and globals clash, calls nested to depth 3, judged against the model; every run also reports the number of open "
-            "scopes afterwards (must be 0) and the variables left behind; each script is run twice on one evaluator")
+            "scopes afterwards (must be 0) and the variables left behind; each script is run twice on one evaluator; (c) shadowing programs: a "
+            "foreach index/value variable named like a parameter, a local, the variable of an enclosing loop, a global or a caller's local, "
+            "the outer variable being read again after the loop")
 
     def cases(self, rng, tier):
         out = []
@@ -69,6 +100,11 @@ class C06(Prop):
             f = gen.struct_case(rng, src, ["prepare:" + rng.choice(["opt", "noopt"]), "exec:0", "exec:0"] +
                                 ["getvar:" + vlib.hx(v) for v in ("a", "b", "x", "n", "p")])
             out.append(Case("run", f, "random", nontrivial="function" in src))
+        for _ in range(3000 if tier == "thorough" else 300):
+            src = shadow_program(rng)
+            f = gen.struct_case(rng, src, ["prepare:" + rng.choice(["opt", "noopt"]), "exec:0", "exec:0"] +
+                                ["getvar:" + vlib.hx(v) for v in ("a", "b", "x", "n", "p")])
+            out.append(Case("run", f, "shadowing", note=src))
         return out
 
     def judge(self, case, go, model):
